@@ -24,18 +24,20 @@ import (
 // every transmission of one step (budget exceeded).
 
 type c16flow struct {
-	name  string
-	topic string
-	qos   byte
+	name   string
+	topic  string
+	qos    byte
+	second bool // a second message on the same topic right behind the first
 }
 
 func c16flows() []c16flow {
 	return []c16flow{
-		{"q1 on a subscribed topic", "r/1", 1},
-		{"q2 on a subscribed topic", "r/1", 2},
-		{"q1 on a new topic under a wildcard", "w/n", 1},
-		{"q2 on a new topic under a wildcard", "w/n", 2},
-		{"q2 on a short topic", "xy", 2},
+		{"q1 on a subscribed topic", "r/1", 1, false},
+		{"q2 on a subscribed topic", "r/1", 2, false},
+		{"q1 on a new topic under a wildcard", "w/n", 1, false},
+		{"q2 on a new topic under a wildcard", "w/n", 2, false},
+		{"q2 on a short topic", "xy", 2, false},
+		{"two q1 messages on one new topic under a wildcard", "w/n", 1, true},
 	}
 }
 
@@ -163,6 +165,11 @@ func runC16(t *testing.T, f c16flow, dropAll string, prefix []int) explore.ExecR
 		st.FilterToGateway(filter("cl->gw"))
 		s.NoChoice = false
 		routed := st.BrokerPublish(f.topic, "m", f.qos)
+		payloads := []string{"m"}
+		if f.second {
+			routed = st.BrokerPublish(f.topic, "n", f.qos) && routed
+			payloads = append(payloads, "n")
+		}
 		end := vsched.Epoch.Add(15 * time.Second)
 		for len(s.Panics) == 0 && s.HarnessEr == "" {
 			at, ok := s.NextTimer()
@@ -196,6 +203,7 @@ func runC16(t *testing.T, f c16flow, dropAll string, prefix []int) explore.ExecR
 			if step == "" || d.P.Type == refsn.PUBACK || d.P.Type == refsn.PUBREC || d.P.Type == refsn.PUBCOMP || d.P.Type == refsn.REGACK {
 				continue
 			}
+			step = fmt.Sprintf("%s#%d", step, d.P.MsgID) // one exchange step = (step, message id)
 			count[step]++
 			o, seen := first[step]
 			if !seen {
@@ -218,31 +226,45 @@ func runC16(t *testing.T, f c16flow, dropAll string, prefix []int) explore.ExecR
 			}
 		}
 		if dropAll != "" && dropAll != "pattern" {
-			if count[dropAll] != budget+1 {
-				add(fmt.Sprintf("unanswered-step-transmissions:%s:%d", dropAll, count[dropAll]), "the gateway transmitted the unanswered %s step %d times, want exactly 1 + RetryCount = %d and then stop", dropAll, count[dropAll], budget+1)
+			seen := 0
+			for step, n := range count {
+				if !strings.HasPrefix(step, dropAll+"#") {
+					continue
+				}
+				seen++
+				if n != budget+1 {
+					add(fmt.Sprintf("unanswered-step-transmissions:%s:%d", dropAll, n), "the gateway transmitted the unanswered %s step (%s) %d times, want exactly 1 + RetryCount = %d and then stop", dropAll, step, n, budget+1)
+				}
+			}
+			if seen == 0 {
+				add(fmt.Sprintf("unanswered-step-transmissions:%s:0", dropAll), "the gateway never transmitted the %s step", dropAll)
 			}
 		} else if len(s.Panics) == 0 {
 			// within the budget: delivered, acknowledged to the broker, both sides finished
-			n := 0
-			for _, d := range st.Deliv {
-				if d.Payload == "m" {
-					n++
-					if d.Topic != f.topic {
-						add("delivered-under-wrong-topic", "handler got topic %q, broker published on %q", d.Topic, f.topic)
+			done := true
+			for _, pl := range payloads {
+				n := 0
+				for _, d := range st.Deliv {
+					if d.Payload == pl {
+						n++
+						if d.Topic != f.topic {
+							add("delivered-under-wrong-topic", "handler got topic %q, broker published on %q", d.Topic, f.topic)
+						}
 					}
 				}
-			}
-			switch {
-			case n == 0:
-				add(fmt.Sprintf("message-not-delivered:q%d", f.qos), "the client's handler never ran (client sent %v)", names(clOut))
-			case f.qos == 2 && n != 1:
-				add(fmt.Sprintf("qos2-handler-runs=%d", n), "QoS 2 message delivered to the handler %d times", n)
-			}
-			done := false
-			for _, m := range st.B.Completed {
-				if m.Payload == "m" && m.Topic == f.topic {
-					done = true
+				switch {
+				case n == 0:
+					add(fmt.Sprintf("message-not-delivered:q%d", f.qos), "the client's handler never ran for message %q (client sent %v)", pl, names(clOut))
+				case f.qos == 2 && n != 1:
+					add(fmt.Sprintf("qos2-handler-runs=%d", n), "QoS 2 message delivered to the handler %d times", n)
 				}
+				ok := false
+				for _, m := range st.B.Completed {
+					if m.Payload == pl && m.Topic == f.topic {
+						ok = true
+					}
+				}
+				done = done && ok
 			}
 			if !done {
 				add(fmt.Sprintf("broker-never-acknowledged:q%d", f.qos), "the broker never received the final acknowledgement (in flight at the broker: %v; gateway sent %v; client sent %v)", st.B.InFlight(), names(gwOut), names(clOut))
@@ -310,7 +332,7 @@ func TestC16(t *testing.T) {
 	}
 	rep.Coverage["evaluations"] = evals
 	rep.Coverage["distinct_nontrivial"] = rep.Coverage["states"]
-	rep.Coverage["rule"] = "real client <-> faulty in-memory link <-> real gateway session <-> broker model (RetryCount 2, RetryDelay 1 s on both sides); the broker publishes one QoS 1 / QoS 2 message on a subscribed (registered) topic, on a new topic under a wildcard (REGISTER step) and on a short topic; each datagram in either direction is delivered, dropped or duplicated, all patterns with at most 2 deviations (thorough up to 5) in which no exchange step loses more than RetryCount datagrams; plus every flow with all gateway->client datagrams of one step lost; plus, per flow, every combination of loss counts per exchange step (a gateway datagrams then b client acknowledgements lost, a+b <= RetryCount, for each of the REGISTER, PUBLISH and PUBREL steps: 216 patterns), so that losses in one step are followed by the full budget of losses in the next. Oracle within the budget: handler ran (exactly once for QoS 2) under the broker's topic, the broker got PUBACK / PUBCOMP, no transaction left on either side, retransmissions repeat message id, topic id and payload, PUBLISH retransmissions carry DUP, at most RetryCount retransmissions; beyond the budget: exactly 1 + RetryCount transmissions. distinct_nontrivial = distinct (fault pattern, datagram log) outcomes"
+	rep.Coverage["rule"] = "real client <-> faulty in-memory link <-> real gateway session <-> broker model (RetryCount 2, RetryDelay 1 s on both sides); the broker publishes one QoS 1 / QoS 2 message on a subscribed (registered) topic, on a new topic under a wildcard (REGISTER step), on a short topic, and two QoS 1 messages right behind each other on one new topic; each datagram in either direction is delivered, dropped or duplicated, all patterns with at most 2 deviations (thorough up to 5) in which no exchange step loses more than RetryCount datagrams; plus every flow with all gateway->client datagrams of one step lost; plus, per flow, every combination of loss counts per exchange step (a gateway datagrams then b client acknowledgements lost, a+b <= RetryCount, for each of the REGISTER, PUBLISH and PUBREL steps: 216 patterns), so that losses in one step are followed by the full budget of losses in the next. Oracle within the budget: handler ran (exactly once for QoS 2) under the broker's topic, the broker got PUBACK / PUBCOMP, no transaction left on either side, retransmissions repeat message id, topic id and payload, PUBLISH retransmissions carry DUP, at most RetryCount retransmissions; beyond the budget: exactly 1 + RetryCount transmissions. distinct_nontrivial = distinct (fault pattern, datagram log) outcomes"
 	rep.Assumptions = []string{"thread schedule: deviation-bounded together with the fault choices", "a duplicate arrives right after the original", "the broker model is lossless (TCP)"}
 	rep.Finish()
 }
